@@ -963,3 +963,40 @@ Proof.
   - left. split; [now apply occ_not_In | lia].
   - right. split; [apply occ_In; lia | apply occ_not_In; lia].
 Qed.
+
+(* ------------------------------------------------------------------ initial tables *)
+
+Lemma world_ok_consumer ids n : NoDup ids -> (forall i, In i ids -> (i < n)%Z) ->
+  world_ok (mkW [OC (c_new ids)] n).
+Proof.
+  intros Hnd Hlt. unfold world_ok, world_ids, objs_ids. cbn [w_objs w_next flat_map obj_ids c_new c_slots].
+  rewrite slot_ids_live, app_nil_r. splits; auto.
+  constructor; [|constructor]. exists ids. apply c_new_rep.
+Qed.
+
+Lemma world_ok_empty_consumer N n : world_ok (mkW [OC (c_empty N)] n).
+Proof.
+  unfold world_ok, world_ids, objs_ids. cbn [w_objs w_next flat_map obj_ids c_empty c_slots].
+  rewrite slot_ids_moved. cbn [app]. splits; [| constructor | intros i []].
+  constructor; [|constructor]. exists []. apply c_empty_rep.
+Qed.
+
+Lemma world_ok_builder N n : world_ok (mkW [OB (b_new N)] n).
+Proof.
+  unfold world_ok, world_ids, objs_ids. cbn [w_objs w_next flat_map obj_ids b_new b_slots].
+  rewrite slot_ids_moved. cbn [app]. splits; [| constructor | intros i []].
+  constructor; [|constructor]. exists []. apply b_new_rep.
+Qed.
+
+(** every op preserves the invariant over the whole table and is never UB *)
+Theorem step_preserves : forall w o, world_ok w ->
+  match step w o with
+  | StepUB => False
+  | StepInvalid => True
+  | StepOk w' _ ev => world_ok w' /\ step_post w o w' ev
+  end.
+Proof.
+  intros w o Hok. pose proof (step_ok w o Hok) as H.
+  destruct (step w o) as [w' rt ev| |]; auto. split; [|assumption].
+  now apply (step_post_world_ok w o w' ev).
+Qed.
